@@ -1,8 +1,8 @@
 INIT Init
 NEXT Next
 CONSTANTS
-  EndKinds = {"commit", "rollback"}
-  StepKinds <- MidKinds
+  EndKinds = {"commit", "commitf"}
+  StepKinds <- CommitFKinds
   MaxSteps = 3
   Gtx = {TRUE, FALSE}
   Lits = {FALSE}
